@@ -103,7 +103,7 @@ def run(ck):
         for _ in range(n):
             tagno[0] += 1
             ch, okk = gen_child(crng, nm, tagno[0], only_immutable)
-            name = D.gen_name(crng, pool)
+            name = D.gen_unstable(crng) if crng.random() < .2 else D.gen_name(crng, pool)
             if not okk:
                 errs.append((name, ch))
                 continue
@@ -239,7 +239,8 @@ def run(ck):
         dinfo = D.CapInfo(dcap)
         dn_w, dn_r = nm.create_from_cap(dcap), nm.create_from_cap(dinfo.readonly)
         n = crng.choice([0, 1, 2, 5, 10, 20, 50]) if crng.random() < .7 else crng.randint(0, 50)
-        pool = [D.gen_name(crng) for _ in range(3)] + [crng.choice(D.NFC_CHANGING)]
+        u_ = D.gen_unstable(crng)
+        pool = [D.gen_name(crng) for _ in range(3)] + [crng.choice(D.NFC_CHANGING), u_, D.nfc(u_)]
         kids, errs = mkchildren(crng, nm, n, pool=pool)
         wit = {"directory": fam, "names": [repr(x)[:40] for x in list(kids)[:12]], "n": len(kids),
                "children": [c_.desc[:80] for c_ in list(kids.values())[:12]]}
@@ -247,6 +248,10 @@ def run(ck):
         for namex in kids:
             if D.nfc(namex) != namex:
                 ck.hit("name-changes-under-nfc")
+            if D.mark_is_max(namex):
+                ck.hit("non-nfc-name-whose-largest-code-point-is-the-combining-mark")
+                if max(namex) == "\u0300":
+                    ck.hit("non-nfc-name-with-U+0300-as-largest-code-point")
             if namex == "":
                 ck.hit("empty-name")
             if any(ch_ in namex for ch_ in ":,\x00"):
@@ -447,7 +452,7 @@ def run(ck):
         fam = crng.choice(["DIR2", "DIR2-MDMF"])
         dinfo = D.CapInfo(D.fake_cap(crng, fam))
         dn_w, dn_r = nm.create_from_cap(dinfo.string), nm.create_from_cap(dinfo.readonly)
-        kids, _ = mkchildren(crng, nm, crng.randint(1, 12), pool=[crng.choice(D.NFC_CHANGING)])
+        kids, _ = mkchildren(crng, nm, crng.randint(1, 12), pool=[crng.choice(D.NFC_CHANGING), D.gen_unstable(crng)])
         # only children whose stored form is unambiguous for a hand-written directory: known caps
         kids = {nx: c_ for nx, c_ in kids.items() if not c_.unknownish}
         groups = group(kids)
@@ -480,7 +485,8 @@ def run(ck):
     ck.require_reach("name-changes-under-nfc", "empty-name", "name-with-delimiter-or-nul", "very-long-name",
                      "names-collide-after-normalisation", "immutable-pack-refused", "immutable-pack-accepted",
                      "legacy-unnormalised-name", "child:known", "child:unknown", "child:verifier", "grid-immutable-refused",
-                     "listing-reused-as-children", "listing-reused-as-immutable-children", "entry-point:set_nodes")
+                     "listing-reused-as-children", "listing-reused-as-immutable-children", "entry-point:set_nodes",
+                     "non-nfc-name-whose-largest-code-point-is-the-combining-mark", "non-nfc-name-with-U+0300-as-largest-code-point")
 
 
 def grid_case(ck, rng, caseno, mkchildren, compare, independent_bytes_oracle):
@@ -669,9 +675,15 @@ def nfc_entry_points(ck, g, c, reader, rng, wit):
     from allmydata.immutable.upload import Data
     pairs = list(NFC_PAIRS)
     rng.shuffle(pairs)
+    pairs = pairs[:3]
+    for x in [rng.choice(D.UNSTABLE_U0300_IS_MAX), rng.choice(D.UNSTABLE_MARK_IS_MAX), rng.choice(D.UNSTABLE_MARK_IS_MAX), D.gen_unstable(rng)]:
+        pairs.append((D.nfc(x), x))
+    rng.shuffle(pairs)
     names = {}
     for nfc_, other in pairs:
         names.setdefault(nfc_, other)
+    if any(D.mark_is_max(x) for x in names.values()):
+        ck.hit("non-nfc-name-whose-largest-code-point-is-the-combining-mark")
     init = {}
     for k, nfc_ in enumerate(sorted(names)):
         init[nfc_] = (c.create_node_from_uri(D.lit_cap(b"old-%d" % k)), {"old": k})
@@ -680,7 +692,7 @@ def nfc_entry_points(ck, g, c, reader, rng, wit):
     S = D.ok(g, c.create_dirnode({"src%d" % k: (c.create_node_from_uri(D.lit_cap(b"moved-%d" % k)), {}) for k in range(3)}), "create_dirnode")
     tinfo = D.CapInfo(T.get_uri())
     model = {n_: (None, D.lit_cap(b"old-%d" % k)) for k, n_ in enumerate(sorted(names))}
-    eps = ["set_nodes"] + rng.sample(ENTRY_POINTS[1:], 3)
+    eps = ["set_nodes"] + rng.sample(ENTRY_POINTS[1:], 4)
     rng.shuffle(eps)
     moved = [0]
 
